@@ -690,7 +690,16 @@ class GlobGlob(Contract):
         return {1: ('self.pattern', t), 2: ('results', t), 3: ('self._glob(start, this, rest)', t), 4: ('results', t),
                 5: ('self._glob(curdir if not curdir == self.current else self.empty, this, rest)', t)}
 
-    obligation_props = {'Glob.glob._glob_receives': ('C05', 'C04'), 'Glob.glob.is_abs_pattern': ('C12', 'C05', 'C13'), 'Glob.glob.every_result': ('C13', 'C12'),
+    @property
+    def ensures(self):
+        def all_patterns(c):
+            tr = list(c.st.trace)
+            it = max([i for i, t in enumerate(tr) if t == 'loop1:iter'], default=-1)
+            ex = max([i for i, t in enumerate(tr) if t == 'loop1:exhausted'], default=-1)
+            return z3.BoolVal(not it > ex)          # a path that ends from inside an iteration over the patterns (return / break) drops every later pattern of the call
+        return [('Glob.glob.every_pattern_of_the_call_gets_its_turn_(a_pattern_that_is_skipped_does_not_end_the_call)', ('C13', 'C05', 'C12'), all_patterns)]
+
+    obligation_props = {'Glob.glob._glob_receives': ('C05', 'C04'), 'Glob.glob.is_abs_pattern': ('C12', 'C05', 'C13', 'C04'), 'Glob.glob.every_result': ('C13', 'C12'),
                         'Glob.glob._format_path_gets': ('C12',), 'Glob.glob.loop': ('C05',)}
 
 
